@@ -65,6 +65,10 @@ func visitPkgs(vs []simapi.Visit) []string {
 }
 
 func (w *Worker) genC03(rc *simapi.RunConfig) {
+	if rc.Index%5 == 4 {
+		w.genC03Analyzer(rc)
+		return
+	}
 	r := simrt.NewRand(rc.RunSeed, "work")
 	rc.Kind = "cli-history"
 	maxLen := 12
